@@ -778,8 +778,8 @@ func ruleC14LockPair(cx *Ctx) {
 					cut := map[edge]bool{}
 					handoff := false
 					allInstrs(fn, func(x ssa.Instruction) {
-						if isStdMethod(x, "sync/atomic", "Uint32", "CompareAndSwap") {
-							if isLocal := freshBase(recvValue(x)); isLocal && tokenPassedToDrain(cx, fn, recvValue(x)) {
+						if tok, isClaim := tokenClaim(x); isClaim {
+							if isLocal := freshBase(tok); isLocal && tokenPassedToDrain(cx, fn, tok) {
 								for _, j := range ifsOn(x.(ssa.Value)) {
 									cut[edge{j.If.Block(), 1 - j.TrueIdx}] = true
 									handoff = true
@@ -804,8 +804,8 @@ func ruleC14LockPair(cx *Ctx) {
 		return
 	}
 	allInstrs(db, func(in ssa.Instruction) {
-		if isStdMethod(in, "sync/atomic", "Uint32", "CompareAndSwap") {
-			if _, isParam := recvValue(in).(*ssa.Parameter); isParam {
+		if tok, isClaim := tokenClaim(in); isClaim {
+			if _, isParam := rootOf(tok).(*ssa.Parameter); isParam {
 				for _, j := range ifsOn(in.(ssa.Value)) {
 					succ := j.If.Block().Succs[j.TrueIdx]
 					ok, w := MustFollowPt(Pt{succ, 0}, isUnlock, exitReturn, nil)
@@ -999,4 +999,49 @@ func popperReachedFrom(fn, tryPop *ssa.Function, seen map[*ssa.Function]bool, de
 		}
 	})
 	return out
+}
+
+
+// tokenClaim recognises the claim of the hand-off token: CompareAndSwap on an atomic.Uint32, made directly or through a
+// straight-line method of the module that wraps exactly that operation on a field of its receiver and returns its
+// result. It returns the token object (the atomic itself, or the value whose method was called).
+func tokenClaim(in ssa.Instruction) (ssa.Value, bool) {
+	if _, isCall := in.(*ssa.Call); !isCall {
+		return nil, false
+	}
+	if isStdMethod(in, "sync/atomic", "Uint32", "CompareAndSwap") {
+		return recvValue(in), true
+	}
+	g := calleeOf(in)
+	if g == nil || g.Pkg == nil || !strings.HasPrefix(g.Pkg.Pkg.Path(), modPath) {
+		return nil, false
+	}
+	g = origin(g)
+	if len(g.Blocks) != 1 || len(g.Params) == 0 || g.Signature.Recv() == nil {
+		return nil, false
+	}
+	var cas ssa.Value
+	n := 0
+	var ret *ssa.Return
+	allInstrs(g, func(x ssa.Instruction) {
+		if isStdMethod(x, "sync/atomic", "Uint32", "CompareAndSwap") {
+			n++
+			if rootOf(recvValue(x)) == ssa.Value(g.Params[0]) {
+				cas, _ = x.(ssa.Value)
+			}
+		} else if c, isC := x.(*ssa.Call); isC && c != nil {
+			n += 2 // any other call: not a plain wrapper
+		}
+		if r, isR := x.(*ssa.Return); isR {
+			ret = r
+		}
+	})
+	if n != 1 || cas == nil || ret == nil || len(ret.Results) != 1 || ret.Results[0] != cas {
+		return nil, false
+	}
+	cc := callCommon(in)
+	if cc == nil || len(cc.Args) == 0 {
+		return nil, false
+	}
+	return cc.Args[0], true
 }
